@@ -335,6 +335,7 @@ class SpecEval:
                 args = [sub.term(a).v for a in it.args]
                 lo, hi = (z3.IntVal(0), args[0]) if len(args) == 1 else (args[0], args[1])
                 guards.append(z3.And(lo <= x, x < hi))
+                self._last_range = (x, lo, hi)
             elif isinstance(it, ast.Call) and isinstance(it.func, ast.Name) and it.func.id == "every":
                 ty = parse_type(it.args[0].value)
                 x = self.eng.fresh(g.target.id, ty.sort); env[g.target.id] = SV(x, ty); bound.append(x)
@@ -356,7 +357,15 @@ class SpecEval:
                 guards.append(sub.bool(cond))
         body = sub.bool(gen.elt)
         if kind == "all": return SV(z3.ForAll(bound, z3.Implies(z3.And(*guards), body)), BOOL)
-        return SV(z3.Exists(bound, z3.And(*guards, body)), BOOL)
+        ex = z3.Exists(bound, z3.And(*guards, body))
+        rng = getattr(self, "_last_range", None)
+        if len(bound) == 1 and len(gen.generators) == 1 and rng is not None and rng[0] is bound[0]:
+            # equivalent reformulation: the existential OR its instances at the two ends of the range (ground witnesses
+            # for E-matching: "the element just appended", "the first element")
+            x, lo, hi = rng
+            f = z3.And(*guards, body)
+            ex = z3.Or(ex, z3.substitute(f, (x, hi - 1)), z3.substitute(f, (x, lo)))
+        return SV(ex, BOOL)
 
     # ------------------------------------------------------------------ locations (modifies clauses)
     def locations(self, text):
